@@ -75,15 +75,31 @@ def run_case(design, simname='Simulation', seed=0, nsteps=6, use_init=True, defa
     block = designs.build(design)
     for p in pre:
         block, _ = passes.get(p)(block)
-    steps = stimuli(block, seed, nsteps)
     regmap, memmap = init_state(block, seed, use_init)
+    # without initial state the simulator is built with its OWN defaults for the two maps, and the block is
+    # simulated twice by two simulator objects in a row (a second simulation starts from scratch)
+    for rep in range(1 if (regmap or memmap) else 2):
+        r = _run_once(block, simname, seed + 17 * rep, nsteps, regmap, memmap, default_value,
+                      own_defaults=not (regmap or memmap))
+        if r['failed']:
+            if rep:
+                r['observed']['second_simulation_of_the_block'] = True
+            return r
+    return r
+
+
+def _run_once(block, simname, seed, nsteps, regmap, memmap, default_value, own_defaults):
+    import pyrtl
+    from spec.cycle import RefSim
+    steps = stimuli(block, seed, nsteps)
     ref = RefSim(block, regmap, {m: dict(d) for m, d in memmap.items()}, default_value,
                  mem_default=(0 if simname == 'CompiledSimulation' else None))
     tracer = pyrtl.SimulationTrace(wires_to_track='all' if simname == 'Simulation' else None,
                                    block=block)
     simcls = getattr(pyrtl, simname)
-    kw = dict(tracer=tracer, register_value_map=dict(regmap),
-              memory_value_map={m: dict(d) for m, d in memmap.items()}, block=block)
+    kw = dict(tracer=tracer, block=block)
+    if not own_defaults:
+        kw.update(register_value_map=dict(regmap), memory_value_map={m: dict(d) for m, d in memmap.items()})
     if default_value:
         kw['default_value'] = default_value
     sim = simcls(**kw)
